@@ -7,6 +7,7 @@ CONSTANTS
   ChanIds = {1, 2, 3, 4, 5, 6, 7, 8, 9, 10}
   ChanCap = 128
   ClaimRecheck = TRUE
+  PopRecheck = TRUE
   MaxTimer = 0
 VIEW TraceView
 INVARIANTS NoDuplicate PerKeyFifo OneAtATime NoForeignQueue NoResidue RefsSane
